@@ -36,7 +36,7 @@ STATE_MEASURE = "(files configured, dynamic_frames, fault kind, ordered body pai
 PROBES = [
     "vector_checked", "pair_both_directions", "create_frames_reentered", "dynamic_lookup_created_frames", "unknown_frame_refused", "mutated_then_queried_again",
     "registration_interleaved", "config_flip_after_first_use", "restart", "kernel_fault_fired", "without_pck", "date_last_minute_of_day", "analytic_history_independent",
-    "analytic_within_series_accuracy", "builtin_frame_to_body", "analytic_other_body_on_neighbouring_days", "reversed_propagator_checked", "non_cartesian_state_changed_body",
+    "analytic_within_series_accuracy", "builtin_frame_to_body", "analytic_other_body_on_neighbouring_days", "reversed_propagator_checked", "non_cartesian_state_changed_body", "frame_attached_to_a_jpl_orbit", "kernel_frame_served_after_analytic_namesake",
 ]
 REAL_VS_STUB = "real: beyond.env.jpl (Bsp/Pck singletons, JplPropagator, create_frames, get_orbit, get_frame), frames/centres routing, Date, jplephem reading the real DE403 2000-2020 kernel and the real PCK text files (faulted copies in a scratch directory); stub: none; model: own jplephem handle on the intact kernel chained segment by segment, own TDB (sim/models/timescales.py)"
 ASSUMPTIONS = [
@@ -85,13 +85,24 @@ def model_state(idx, jd):
 
 def model_accel(idx, jd):
     h = 0.01
-    return (model_state(idx, jd + h)[3:] - model_state(idx, jd - h)[3:]) / (2 * h * 86400.0)
+    lo, hi = model_kernel()["span"]
+    a, b = max(jd - h, lo), min(jd + h, hi)
+    return (model_state(idx, b)[3:] - model_state(idx, a)[3:]) / ((b - a) * 86400.0)
 
 
 # ------------------------------------------------------------------ generate
 
 
+SPAN_MJD = (51536, 59216)  # TDB span of the shipped kernel (1999-12-24 .. 2021-01-02)
+
+
 def gen_date(rng):
+    if rng.random() < 0.08:
+        # inside the span but close to its ends: the first seconds (in a scale that lags TDB the clock reading is still "before" the
+        # span) and the last minutes
+        if rng.random() < 0.6:
+            return [SPAN_MJD[0] - 1, 86400.0 - rng.choice([1.0, 5.0, 20.0, 30.0]), rng.choice(["TAI", "UTC", "UTC"])]  # = 1..31 s after the start, in TDB
+        return [SPAN_MJD[1] - 1, 86400.0 - rng.choice([120.0, 600.0]), rng.choice(["TAI", "UTC", "TT", "TDB"])]
     day = rng.randint(51560, 58800)  # 2000-01-15 .. 2019-11-13, inside the kernel
     r = rng.random()
     if r < 0.35:
@@ -117,7 +128,7 @@ def gen_plan(rng, tier, i):
         kn["fault"] = {"kind": rng.choice(["bsp_missing", "bsp_empty", "bsp_truncated", "pck_missing", "pck_damaged"]), "at": rng.random()}
     ops = []
     for _ in range(rng.randint(5, 12)):
-        k = rng.choice(["convert"] * 6 + ["get_orbit", "get_orbit", "mutate_again", "create", "create", "dynamic", "register", "flip", "restart", "analytic", "analytic", "reverse", "kepler_probe", "kepler_probe"])
+        k = rng.choice(["convert"] * 6 + ["get_orbit", "get_orbit", "mutate_again", "create", "create", "dynamic", "register", "flip", "restart", "analytic", "analytic", "reverse", "kepler_probe", "kepler_probe", "orbit_as_frame", "analytic_frame_same_name"])
         op = {"op": k}
         if k == "convert":
             a, b = rng.sample(names + ["EME2000"], 2)
@@ -128,6 +139,10 @@ def gen_plan(rng, tier, i):
             op.update(name=rng.choice(names + ["Nope", "Vulcan"]))
         elif k == "reverse":
             op.update(name=rng.choice(names[1:]), date=gen_date(rng))
+        elif k == "orbit_as_frame":
+            op.update(name=rng.choice(["Moon", "Mars", "Sun", "MarsBarycenter", "Venus", "Mercury", "EarthBarycenter"]), date=gen_date(rng), n=rng.randrange(1000), orient=rng.choice([None, None, "QSW"]))
+        elif k == "analytic_frame_same_name":
+            op.update(name=rng.choice(["Sun", "Moon"]), date=gen_date(rng))
         elif k == "kepler_probe":
             a, b = rng.sample(["Earth", "Moon", "Sun", "MarsBarycenter", "VenusBarycenter", "JupiterBarycenter", "EarthBarycenter"], 2)
             op.update(a=a, b=b, date=gen_date(rng), form=rng.choice(["keplerian", "keplerian_mean", "spherical", "equinoctial"]), r=rng.uniform(2e7, 2e8), ang=[rng.uniform(0, 6.28), rng.uniform(0.1, 3.0)])
@@ -136,7 +151,10 @@ def gen_plan(rng, tier, i):
         elif k == "flip":
             op.update(files=rng.choice([[], ["/nonexistent/other.bsp"], "pck_only"]))
         elif k == "analytic":
-            op.update(body=rng.choice(["Sun", "Moon"]), date=gen_date(rng), n=rng.randint(1, 4), step_days=rng.choice([1, 1, 5, 0.5]), other_first=rng.random() < 0.6, other_offsets=sorted(rng.sample(range(-7, 8), rng.choice([0, 2, 4, 6]))))
+            d_ = gen_date(rng)
+            while not (51560 <= d_[0] <= 58800):  # the analytic bodies are compared with the kernel over several days: stay away from its ends
+                d_ = gen_date(rng)
+            op.update(body=rng.choice(["Sun", "Moon"]), date=d_, n=rng.randint(1, 4), step_days=rng.choice([1, 1, 5, 0.5]), other_first=rng.random() < 0.6, other_offsets=sorted(rng.sample(range(-7, 8), rng.choice([0, 2, 4, 6]))))
         ops.append(op)
     return {"knobs": kn, "ops": ops}
 
@@ -216,6 +234,7 @@ class World:
         self.nodes.append(n)
         self.node = n
         self.created = 0
+        self.name_clash = False
         if not self.kn["pck"]:
             self.ctx.probe("without_pck")
 
@@ -299,6 +318,11 @@ class World:
 
     def check_vector(self, got, a, b, date, where, extra=None):
         ctx = self.ctx
+        if getattr(self, "name_clash", False):
+            # the run registered an analytic frame under the name of a kernel frame (the library warned: "Overriding"): routing by
+            # name may now legitimately go through the analytic link, nothing more is asserted about vectors in this node life
+            ctx.probe("vectors_not_judged_after_name_clash")
+            return
         jd = self.jd_tdb(date)
         want = self.model_vector(a, b, jd)
         if extra is not None:
@@ -401,9 +425,67 @@ class World:
                     self.check_vector(np.array(o2, dtype=float), name, centre, op["date"], where + " (after the caller mutated the previous result)")
         ctx.sig.append(("get_orbit", name, mutate))
 
+    def op_orbit_as_frame(self, op, where):
+        """jpl.get_orbit(body, date).as_frame(name): the body sits at the origin of the frame attached to it, and that origin seen
+        from EME2000 is where the kernel puts the body."""
+        if getattr(self, "name_clash", False):
+            return  # after a name clash (see op_analytic_frame_same_name) frames are looked up by name: nothing is asserted
+        ctx = self.ctx
+        n = self.node
+        jpl = n.mod("beyond.env.jpl")
+        if self.guarded(self.ensure_frames, where, "create_frames")[1] is not None:
+            return
+        m = model_kernel()
+        name = op["name"]
+        if name not in m["index"] or m["index"][name] not in m["seg"]:
+            return
+        date = world.mk_date(n, op["date"][:2], op["date"][2])
+        fname = f"Att{op['n']}"
+
+        def do():
+            o = jpl.get_orbit(name, date)
+            kw = {"orientation": op["orient"]} if op.get("orient") else {}
+            o.as_frame(fname, **kw)
+            probe = n.StateVector([0.0] * 6, date, "cartesian", fname)
+            return np.array(probe.copy(frame="EME2000"), dtype=float)
+
+        got, exc = self.guarded(do, where, f"get_orbit({name}).as_frame()")
+        if exc is not None:
+            return
+        ctx.probe("frame_attached_to_a_jpl_orbit")
+        self.history_nontrivial = True
+        if op.get("orient"):
+            got = np.concatenate([got[:3], self.model_vector(name, "EME2000", self.jd_tdb(op["date"]))[3:]])  # a rotating local frame: only the origin's position is compared
+        self.check_vector(got, name, "EME2000", op["date"], where + " (origin of the frame attached to the orbit)")
+
+    def op_analytic_frame_same_name(self, op, where):
+        """solarsystem.get_frame('Sun' / 'Moon') registers an analytic frame under a name the kernel frames already use (the
+        library warns): jpl.get_frame(name) keeps serving the frame created from the kernel."""
+        ctx = self.ctx
+        n = self.node
+        jpl = n.mod("beyond.env.jpl")
+        if self.guarded(self.ensure_frames, where, "create_frames")[1] is not None or self.faulted:
+            return
+        try:
+            n.mod("beyond.env.solarsystem").get_frame(op["name"])
+        except Exception:  # noqa
+            return
+        ctx.fault("msg_interleaved_registration")
+        self.name_clash = True
+        self.history_nontrivial = True
+        fr, exc = self.guarded(lambda: jpl.get_frame(op["name"]), where, f"jpl.get_frame({op['name']})")
+        if exc is not None:
+            return
+        ctx.checks += 1
+        ctx.probe("kernel_frame_served_after_analytic_namesake")
+        if type(fr).__name__ != "JplFrame" or fr.orientation.name != "EME2000":
+            ctx.violate("jpl-frames", {"kind": "kernel_frame_replaced_by_namesake", "name": op["name"]}, f"{where}: after solarsystem.get_frame({op['name']!r}), jpl.get_frame({op['name']!r}) returns a {type(fr).__name__} oriented {fr.orientation.name} instead of the frame created from the kernel")
+
     def op_reverse(self, op, where):
         """A propagator built in the direction opposite to the file's segment (centre seen from its target): the negated segment,
         position and velocity."""
+        if getattr(self, "name_clash", False):
+            return  # after a name clash (see op_analytic_frame_same_name) frames are looked up by name: nothing is asserted
         ctx = self.ctx
         n = self.node
         jpl = n.mod("beyond.env.jpl")
@@ -429,6 +511,8 @@ class World:
     def op_kepler_probe(self, op, where):
         """A state held in a non-cartesian form changes frame in place, from one body to another: the conversion back to the form
         must use the new central body (needs the GM constants: only when the constant files are configured)."""
+        if getattr(self, "name_clash", False):
+            return  # after a name clash (see op_analytic_frame_same_name) frames are looked up by name: nothing is asserted
         ctx = self.ctx
         n = self.node
         if not any(f.endswith("gm_de431.tpc") for f in self.files) or self.faulted:
